@@ -2,7 +2,7 @@
 From Coq Require Import ZArith List Bool Lia.
 From OBB Require Import Gen.TrxIfConst Model.TrxIf Proofs.TrxIfP Proofs.TrxIfCtrlP Proofs.TrxCtrlIf.
 From OBB Require Import Base.Dec Gen.TrxdConst Gen.FakeTrxConst Model.Trxd Model.Trx
-  Proofs.TrxDrop Proofs.TrxMeta Proofs.TrxInv Proofs.TrxCtrl.
+  Proofs.TrxDrop Proofs.TrxMeta Proofs.TrxInv Proofs.TrxCtrl Proofs.TrxSession.
 Import ListNotations.
 Open Scope Z_scope.
 
@@ -121,3 +121,11 @@ Theorem c05_setfh_fits : forall hsn maio ma rc q crit text,
   c_phyif_cmd (PSetFreqH1 hsn maio ma) = CmdQ rc q -> In (crit, text) q -> Z.of_nat (length text) + 1 <= ctrl_recv_size.
 Proof. exact setfh_fits. Qed.
 Print Assumptions c05_setfh_fits.
+
+(* a refused command - negative status, whatever the verb and the arguments - changes nothing at all: not the addressed
+   transceiver, not any other, not the pending random draws (checked on the implementation after every refused or ignored
+   control datagram of every session: state digest before = state digest after) *)
+Theorem c05_refused_no_effect : forall w i req draws w' rc ex d', (i < length (w_trx w))%nat ->
+  parse_cmd w i req draws = (w', CStatus rc ex, d') -> rc < 0 -> w' = w /\ d' = draws.
+Proof. exact refused_no_effect. Qed.
+Print Assumptions c05_refused_no_effect.
